@@ -99,7 +99,7 @@ def jobs(tier, seed):
         D("pca", d=1, target="normal", T=1.0, wf=0.5)
         D("hmc", d=3, target="normal", T=7.0, mass="scalar", steps=10000)
     out = [{"name": f"{c['mode']}-{c['kind']}-{i}", "seed": seed, "i": i, **c} for i, c in enumerate(cfgs)]
-    for k, (n_ch, ladder) in enumerate([(2, "wide"), (3, "tight"), (4, "wide")] + ([] if q else [(5, "tight"), (3, "wide")])):
+    for k, (n_ch, ladder) in enumerate([(2, "wide"), (3, "tight"), (4, "wide-unsorted"), (3, "tight-unsorted")] + ([] if q else [(5, "tight"), (3, "wide"), (5, "tight-unsorted")])):
         out.append({"name": f"pt-exchange-{k}", "seed": seed, "i": len(out), "mode": "pt", "kind": "tempering", "n": n_ch, "ladder": ladder,
                     "rounds": 150 if q else 700})
     out.append({"name": "proposal-kernels", "seed": seed, "i": len(out), "mode": "proposal", "kind": "parameter", "n": 40000 if q else 200000})
@@ -247,6 +247,18 @@ def run_config(job, rng, n_steps, rec, hooks):
     burn = n_steps // 10
     if kind == "ensemble":
         ens_vals, ens_w = [], []
+    def in_box(pts_):
+        # with bounds the target is the user's density restricted to the box: every point the sampler asks about lies inside
+        lo, hi = info["lo"], info["hi"]
+        if lo is not None and len(pts_):
+            P = np.asarray(pts_, float).reshape(len(pts_), -1)
+            out = (P < lo - 1e-12 * np.abs(lo)) | (P > hi + 1e-12 * np.abs(hi))
+            rec.count("ledger:points_checked_against_bounds", len(pts_))
+            if out.any() and not rec.counters.get("violations:left-the-bounds"):
+                k_ = int(np.nonzero(out.any(axis=1))[0][0])
+                rec.violation("left-the-bounds", f"{job['name']}: step {step}: the sampler evaluated the log-density at {P[k_]} outside its bounds [{lo}, {hi}] "
+                              "(it no longer samples the density restricted to the bounds)", {**{k: v for k, v in job.items() if k != 'seed'}, "step": step})
+
     for step in range(n_steps):
         if job.get("reload") and step == n_steps // 3:
             # the run is interrupted: the sampler is saved, re-loaded from the file (with its generator states) and the run goes on
@@ -278,6 +290,7 @@ def run_config(job, rng, n_steps, rec, hooks):
             Xb, Lb = ch.walker_positions.copy(), ch.walker_probs.copy()
             ch.advance(1)
             pts, vals = trace.points, trace.values
+            in_box(pts)
             ok = lg.decode_ensemble_iteration(led, Xb, Lb, ch.walker_positions.copy(), pts, vals, ch.alpha, ch.max_attempts, zs, offs,
                                               bounded=info["lo"] is not None)
             if not ok:
@@ -293,6 +306,7 @@ def run_config(job, rng, n_steps, rec, hooks):
         Lc = target(cur) / T
         ch.take_step()
         pts, vals = trace.points, trace.values
+        in_box(pts)
         if kind == "hmc":
             att = [(a[0], a[1], a[2], a[3]) for a in leap_log]
             for a in leap_log:
@@ -683,9 +697,16 @@ def tempering_exchanges(job, rec, rng):
         r = mk_rng(job["seed"], "C01-pt", job["i"], seed_shift)
         sp = c08.make_spec(r, 0, 0)
         n = job["n"]
-        fac = r.uniform(1.2, 1.8, size=n - 1) if job["ladder"] == "tight" else r.uniform(2.5, 6.0, size=n - 1)
+        fac = r.uniform(1.2, 1.8, size=n - 1) if job["ladder"].startswith("tight") else r.uniform(2.5, 6.0, size=n - 1)
+        temps = [float(t) for t in np.cumprod([1.0] + list(fac))]
+        if job["ladder"].endswith("unsorted"):
+            # a list of chains that is not in order of temperature is legitimate (the library only warns): hottest first, or shuffled
+            perm = list(range(n))[::-1] if seed_shift == 0 else [int(i) for i in mk_rng(job["seed"], "C01-pt-perm", job["i"]).permutation(n)]
+            if perm == sorted(perm):
+                perm = perm[::-1]
+            temps = [temps[i] for i in perm]
         sp.update(n=n, kinds=[str(r.choice(["gibbs", "pca", "hmc"]))] * n, ladder=job["ladder"],
-                  temps=[float(t) for t in np.cumprod([1.0] + list(fac))], starts=(r.normal(size=(n, sp["d"])) * 1.5).tolist(),
+                  temps=temps, starts=(r.normal(size=(n, sp["d"])) * 1.5).tolist(),
                   seeds=[int(v) for v in r.integers(2**31, size=n + 2)], display=False)
         return sp
 
